@@ -139,6 +139,13 @@ CHECKS = {
         note="a bounded set of hash seeds; observed argument orders of the set-derived argument list are counted in the evidence; correctness of the fresh results is C01/C02's business",
         design="§4 C09",
     ),
+    "C12": dict(
+        engine="E3-history-explorer",
+        technique="exhaustive enumeration of all subsets (size <= 2, thorough 3) of a 19-letter alphabet of documented rule violations on three base models, and of an odd-shape alphabet x horizons x batch sizes plus Family_1 for the converse; each specification is driven through Model(...), get_lcm_function (3 targets) and the first calls",
+        text="Rejection: every subset of at most two of 19 documented rule violations (horizon 0/-1, no utility, missing transition, name overlap, non-grid state/choice, non-callable function, stochastic transition on/depending on a continuous variable, on a parameter, on an auxiliary function, filter with parameter, six invalid grids) applied to three base models must be rejected with ModelInitilizationError, GridInitializationError or ValueError no later than get_lcm_function, for all three targets (570 specifications). Converse: 21 odd shapes (no choices, no states, single-label and single-point grids, stochastic transitions without dependencies or with the period only, restricted stochastic state, state-only filters, only continuous / only discrete choices, ...) x T in {1,2} x 1 or 3 agents and every Family_1 model must either be rejected up front with a sanctioned exception or run solve, simulate and solve_and_simulate to completion with parameters filled from the returned template. A fresh interpreter must import lcm.entry_point without the compatibility shim.",
+        note="eight accepted-but-failing shapes are genuine defects recorded as known findings K1, K2, K3a-d, K6 (matched by shape + stage + exception type); only documented rules are in the violation alphabet",
+        design="§4 C12",
+    ),
 }
 
 NOT_APPLICABLE = {
